@@ -101,6 +101,10 @@ class Gen:
                     rp = [self.rpt(i if (exact or r.random() < 0.93) else r.choice(self.idpool)) for _ in range(n)]
                     usage.append({"op": op, "id": i, "rpts": rp})
         ev["fail"], ev["usage"] = fail, usage
+        if self.p_panic and ev.get("msg", {}).get("k") == "del" and r.random() < self.p_panic:
+            # a removal call of Sess.Close panics: the deletion is aborted half-way (Close iterates Go maps, so WHICH rules
+            # went before the panic is not determined: the model comparison of such a history stops here, the monitors go on)
+            ev["panic"] = {"op": "remove", "kind": r.choice(["far", "qer", "urr", "bar", "pdr"]), "id": r.choice(self.idpool)}
         if self.p_panic and ev.get("msg", {}).get("k") in ("est", "mod") and r.random() < self.p_panic:
             ops = ev["msg"].get("ops") or {}
             cands = []
@@ -674,8 +678,24 @@ def c_case(case, obs, prefix):
     names = Names(prefix)
     orders = reset_orders(case, obs)
     items = []
+    prev = None
     for ev, o, ro in zip(case["events"], obs, orders):
+        if o.get("panicked") and ev["t"] == "recv" and ev["msg"]["k"] == "del":
+            break       # an aborted deletion is outside the model (see Gen.env): compare the history up to here
+        if o.get("panicked") and ev["t"] == "recv" and ev["msg"]["k"] == "mod" and ev.get("panic", {}).get("op") == "create" \
+                and ev["panic"]["kind"] in ("urr", "pdr") and prev is not None:
+            # Create URR / Create PDR for an id the session HOLDS restores the previous bookkeeping when the driver returns an
+            # error; a panic skips that restore.  The model's abort event treats the panicking call as a failed call, so this
+            # one case is outside it: compare the history up to here
+            sl = [x for x in (prev.get("slots") or []) if x is not None and x["lid"] == ev["msg"]["seid"]]
+            held = set()
+            if sl:
+                key = "urrs" if ev["panic"]["kind"] == "urr" else "pdrs"
+                held = {x["id"] for x in (sl[0].get(key) or []) if not x.get("removed")}
+            if ev["panic"]["id"] in held:
+                break
         items.append("(%s, %s)" % (c_event(ev, ro, o), c_obs(o, names)))
+        prev = o.get("dump") or prev
     return "(mkCase %d %d %s)" % (case["txseq0"], case["maxretrans"], clist(items))
 
 
